@@ -241,17 +241,27 @@ func oracle(c Case) vkit.Outcome {
 	out.Key = fmt.Sprintf("%d:%s", c.Dialect, c.SQL)
 	p, err := sqlparse.New(c.SQL, c.Dialect)
 	if err != nil {
+		if debugErrs != nil {
+			debugErrs["SKIPPED: "+c.SQL]++
+		}
 		out.Skip = "parser-rejects " + dialectName(c.Dialect) + " " + c.Kind + ": " + normMsg(err.Error())
 		return out
 	}
 	why := nonTrivial(p.Statement(), c.SQL)
 	out.NonTrivial = len(why) > 0
 	kind := p.StatementKind().String()
+	switch kind {
+	case "BEGIN", "COMMIT", "ROLLBACK", "SAVEPOINT", "RELEASE":
+		kind = "TXN"
+	}
 	out.Labels = append(out.Labels, "kind "+dialectName(c.Dialect)+" "+kind)
 	for _, w := range why {
 		out.Labels = append(out.Labels, "nt "+w)
 	}
 	for _, f := range c.Features {
+		if f == "quoted-ident" || f == "prec-mix" || f == "table-alias-as" || f == "alias-as" {
+			continue // same information as the nt labels / too common to be informative
+		}
 		out.Labels = append(out.Labels, "f "+f)
 	}
 	formatted := p.Format()
